@@ -355,10 +355,25 @@ func checkC04(c *core.Ctx) error {
 				continue
 			}
 			var got *sym.Term
-			if len(paths) == 1 {
-				if l, ok := paths[0].Ret.(*vn.Loc); ok {
+			nGeneric := 0
+			for _, pa := range paths {
+				// branches that assume an entry to be exactly zero are not generic inputs
+				degenerate := false
+				for _, cv := range pa.Conds {
+					if cv.C.Op == "eq" && cv.V {
+						degenerate = true
+					}
+				}
+				if degenerate {
+					continue
+				}
+				nGeneric++
+				if l, ok := pa.Ret.(*vn.Loc); ok {
 					got = l.Val
 				}
+			}
+			if nGeneric != 1 {
+				got = nil
 			}
 			want := leibniz(n, func(i, j int) *sym.Term { return symf("a_%d_%d", i, j) })
 			c.Check(got != nil && sym.Equal(got, want), "C04.R3", cons, "equals the Leibniz formula "+tag, fd.Pos(),
